@@ -83,7 +83,7 @@ theorem addFixed_spec {P : Member → TP → Prop} : ∀ (fixed cur : Asg), (AL.
 
 /-- the plan assembled from a state that satisfies the invariant is valid -/
 theorem SInv.finish_valid {ms : Members} {ts : Topics} {env : SEnv} (wf : SWf ms ts env) {st : SState}
-    (inv : SInv env st) (hass : st.assigned = true) (htp : ∀ e, e ∈ ts → e.2.Nodup) :
+    (inv : SInv env st) (hass : st.assigned = true) :
     validPlan ms ts (finish .guarded st) = true := by
   have c := inv.core
   obtain ⟨hcnt, hkeys, hall⟩ := addFixed_spec st.fixed st.cur c.keysNodup c.holdsC c.holdsF
@@ -188,7 +188,7 @@ theorem initCur_spec {ms : Members} {ts : Topics} (hids : (ms.map (·.1)).Nodup)
           · rcases List.mem_append.mp hp0 with h' | h'
             · exact Or.inl ⟨_, AL.get_mem h', hk0, h'⟩
             · simp only [List.mem_singleton] at h'
-              exact Or.inr ⟨x, List.mem_cons_self, h'.symm, hk0, h.1.2⟩
+              exact Or.inr ⟨x, List.mem_cons_self, h'.symm, hk0, by rw [h']; exact h.1.2⟩
           · exact Or.inl ⟨e0, he0, hk0, hp0⟩
         · exact Or.inl ⟨e0, he0, hk0, hp0⟩
       · exact Or.inr ⟨y, List.mem_cons_of_mem _ hy, hy1, hy2, hy3⟩
@@ -203,7 +203,9 @@ theorem ownerGet_initOwner {ts : Topics} : ∀ (pp : List (TP × Member × Optio
     intro hnd x hx hc
     simp only [List.map_cons, List.nodup_cons] at hnd
     rcases List.mem_cons.mp hx with rfl | hx
-    · simp [initOwner, ownerGet, List.filter_cons, hc]
+    · unfold initOwner ownerGet
+      rw [List.filter_cons, if_pos hc, List.map_cons, List.find?_cons_of_pos (by simp)]
+      rfl
     · have hne : y.1 ≠ x.1 := by
         intro e
         exact hnd.1 (e ▸ List.mem_map.mpr ⟨x, hx, rfl⟩)
@@ -215,16 +217,19 @@ theorem ownerGet_initOwner {ts : Topics} : ∀ (pp : List (TP × Member × Optio
         exact this
       · exact this
 
+theorem countAll_emptyEntries (ms : Members) (p : TP) :
+    AL.countAll (ms.map (fun e => ((e.1, []) : Member × List TP))) p = 0 := by
+  induction ms with
+  | nil => rfl
+  | cons e r ih => simp only [List.map_cons, AL.countAll, List.count_nil, Nat.zero_add]; exact ih
+
 theorem SInv.init {ms : Members} {ts : Topics} {env : SEnv} (wf : SWf ms ts env)
     (pp : List (TP × Member × Option Member)) (hpp : (pp.map (·.1)).Nodup) :
     SInv env (initState ms ts pp) := by
   have hbase : AL.keys (ms.map (fun e => ((e.1, []) : Member × List TP))) = ms.map (·.1) := by
     unfold AL.keys; rw [List.map_map]; rfl
-  have hbase0 : ∀ p, AL.countAll (ms.map (fun e => ((e.1, []) : Member × List TP))) p = 0 := by
-    intro p
-    induction ms with
-    | nil => rfl
-    | cons e r ih => simp only [List.map_cons, AL.countAll, List.count_nil, Nat.zero_add]; exact ih
+  have hbase0 : ∀ p, AL.countAll (ms.map (fun e => ((e.1, []) : Member × List TP))) p = 0 :=
+    fun p => countAll_emptyEntries ms p
   have hbaseP : PlanAll (fun m tp => tp ∈ AL.get (potOf ms ts) m) (ms.map (fun e => ((e.1, []) : Member × List TP))) := by
     intro e he tp htp
     obtain ⟨e', _, rfl⟩ := List.mem_map.mp he
